@@ -5,7 +5,7 @@ program into Jet source + data, executes it on the real library and compares out
 import json, os
 from common import *
 
-BASE = dict(FixTry="TRUE", FixPool="TRUE", RetKeep="TRUE", ExecFull="TRUE", AnyFail="FALSE")
+BASE = dict(FixTry="TRUE", FixPool="TRUE", RetKeep="TRUE", ExecFull="TRUE", FixIsSet="TRUE", AnyFail="FALSE")
 
 def write_cfg(wd, name, consts, subst, invariants, properties, emit=True):
     lines = ["SPECIFICATION Spec", "CONSTANTS", "  Params <- cParams", "  MkCase <- MkC", "  Names <- cNames"]
@@ -21,7 +21,7 @@ def write_cfg(wd, name, consts, subst, invariants, properties, emit=True):
     open(os.path.join(wd, name), "w").write("\n".join(lines) + "\n")
 
 INV = ["TypeOK", "StartsClean"]
-PROPS = ["ConstructRestores", "TryRestoresState", "AppendOnly"]
+PROPS = ["ConstructRestores", "TryRestoresState", "IsSetRestoresState", "AppendOnly"]
 
 def gen_and_replay(rep, wd, exe, module, label, consts, subst, workers=12, heap="8g", timeout=3000,
                    replay_cmd="replay-exec", extra_inv=(), sample_at=(3, 777), simulate=None, depth=None, seed=None,
